@@ -45,6 +45,9 @@ pub struct ConcCase {
     pub strategy: String,
     pub stay_pct: u32,
     pub pct_depth: u32,
+    /// PCT: priority change points are drawn from 1..=pct_horizon scheduling steps
+    #[serde(default)]
+    pub pct_horizon: u64,
     pub spurious_pct: u32,
     pub max_steps: u64,
     /// recorded scheduler choices (replay); empty = explore from the seed
@@ -166,6 +169,7 @@ mod imp {
             let mut log = RoundLog { pre: Some(world.clone()), ..Default::default() };
             let mut handles = vec![];
             let mut tokens = vec![];
+            shuttle::rt::new_phase();
             for reqs in &round.readers {
                 let dbc = db.clone();
                 tokens.push(salsa::Database::cancellation_token(&dbc));
@@ -214,7 +218,10 @@ mod imp {
             log.post = Some(world.clone());
             // verification by the main thread (single handle left): everything must be usable
             fault::disarm();
-            for n in queryable.iter().rev().take(6) {
+            // (not after a round that only performs a joined write: the next round must find the
+            // memos of the previous revision, otherwise nothing is left to re-validate concurrently)
+            let verify_now = !round.readers.is_empty();
+            for n in queryable.iter().rev().take(if verify_now { 6 } else { 0 }) {
                 let o = match catch_unwind(AssertUnwindSafe(|| observe(&db, *n, 0, false))) {
                     Ok(o) => Outc::Val(o),
                     Err(p) => Outc::Panic(panic_kind(&p)),
@@ -244,7 +251,8 @@ mod imp {
         fault::HASH_MOD.store(case.knobs.hash_mod, SeqCst);
         fault::MASK.store(case.fault_mask, SeqCst);
         let strategy = match conc.strategy.as_str() {
-            "pct" => shuttle::rt::Strategy::Pct { depth: conc.pct_depth, horizon: 4000 },
+            "pct" => shuttle::rt::Strategy::Pct { depth: conc.pct_depth, horizon: conc.pct_horizon.max(50) },
+            "pctl" => shuttle::rt::Strategy::PctLocks { depth: conc.pct_depth, horizon: (conc.pct_horizon / 10).max(8) },
             "rr" => shuttle::rt::Strategy::RoundRobin,
             _ => shuttle::rt::Strategy::Random { stay_pct: conc.stay_pct },
         };
